@@ -514,6 +514,9 @@ class OperatorFreshness(Base):
         U = np.exp(-1j * np.sum(Atot * g.dirs, axis=1))
         # admissible staleness: one step's allclose skip (rtol 1e-5, atol 1e-8 per component)
         tol = 10 * np.sum((1e-8 + 1e-5 * np.abs(A)) * np.abs(g.dirs), axis=1) + 1e-12
+        if self.solver.options.include_screening:
+            # with screening the operators are refreshed at every iteration with the exact current potential
+            tol = np.full(g.m, 1e-10)
         L = self.sp.csr_matrix(kw["psi_laplacian"])
         e0, e1 = g.edges[:, 0], g.edges[:, 1]
         fixed = np.zeros(g.n, dtype=bool)
@@ -538,7 +541,7 @@ class OperatorFreshness(Base):
             self.worst("link_error_over_tolerance", r)
             if r > 1:
                 k = int(np.argmax(err / t))
-                self.viol("stale_link_variable", "stale_link_variables_slow_ramp" if (r < 1e9 and self._slow(A)) else "stale_or_partial_refresh",
+                self.viol("stale_link_variable", "stale_link_variables_slow_ramp" if (self.solver.dynamic_vector_potential and not self.solver.options.include_screening and self._slow(A)) else "stale_or_partial_refresh",
                           {"step": ctx["step"], "time": ctx["time"], "operator": name, "edge_pos": k, "got": complex(got[k]), "want": complex(want[k]),
                            "phase_error": float(err[k]), "tolerance": float(t[k])})
                 break
